@@ -9,6 +9,8 @@ import (
 	"strings"
 	"time"
 
+	dcp "github.com/Trendyol/go-dcp"
+	"github.com/Trendyol/go-dcp/api"
 	"github.com/Trendyol/go-dcp/config"
 	"github.com/Trendyol/go-dcp/couchbase"
 	"github.com/Trendyol/go-dcp/helpers"
@@ -18,6 +20,7 @@ import (
 	"github.com/Trendyol/go-dcp/stream"
 	"github.com/asaskevich/EventBus"
 	"github.com/couchbase/gocbcore/v10"
+	"github.com/prometheus/client_golang/prometheus"
 
 	"verif/vrt"
 )
@@ -120,6 +123,7 @@ func init() {
 				rb = 2
 			}
 			out = append(out, Instance{Scenario: "c10_register", Params: mustJSON(struct{}{}), Bound: rb, Shards: 16, Note: "the same under every schedule within the bound during and after the disturbance"})
+			out = append(out, Instance{Scenario: "c10_apiretry", Params: mustJSON(struct{}{}), Bound: 0, Note: "dynamic membership: a PUT that is retried while the first one still waits inside its publication is answered 'not changed' - every numbering is announced once"})
 			out = append(out, Instance{Scenario: "c10_register", Params: mustJSON(RegisterParams{InPhase: true}), Bound: rb, Shards: 16, Note: "the leader's heart-beat and monitor rounds fall on the same instants (start-up delay a multiple of the 5 s period, as with the default)"})
 			out = append(out, Instance{Scenario: "c10_register", Params: mustJSON(struct{}{}), Bound: 0, Note: "real RPC client / handler code over an in-memory transport: registration, death, restart under the same name before / after the leader's next round"})
 			out = append(out, Instance{Scenario: "c11_burst", Params: mustJSON(BurstParams{Membership: "dynamic", MaxN: 2}), Bound: 0, Shards: 8, Note: "the numbering in effect is the one the STREAM follows: after bursts of renumberings (one arriving while the re-open of the previous one runs) exactly the vBuckets of the latest numbering are streamed"})
@@ -710,4 +714,79 @@ func firstInfoMain(p FirstParams) {
 		}
 	}
 	vrt.SetOutcome(fmt.Sprintf("%s k=%d returned=%v", name, k, returned))
+}
+
+// c10_apiretry: dynamic membership through the API. PUT 1/2 starts a slow rebalance (the close-stream answers
+// take 3 s); PUT 1/3 arrives meanwhile and waits inside the publication (the stream's listener is busy); the
+// orchestrator retries PUT 1/3 on another connection. "A numbering is announced only when it differs from the
+// one in effect": the retry is answered "not changed", the bus sees 1/1, 1/2, 1/3 - each once.
+func init() {
+	scenarios["c10_apiretry"] = func(raw json.RawMessage) *vrt.Scenario {
+		return &vrt.Scenario{Name: "c10_apiretry", FreeChoices: true, NoTimerAlt: true, MaxSteps: 2_000_000, Main: func() {
+			resetGlobals()
+			gap := []time.Duration{0, time.Millisecond, 500 * time.Millisecond, 2 * time.Second}[vrt.Choose(4, true, "gap-before-the-retry")]
+			o := DcpOpts{}
+			o.Vbs = 4
+			o.CheckpointType = "auto"
+			o.MembershipType = "dynamic"
+			o.AutoAck = true
+			o.CheckpointInterval = 1000 * time.Second
+			c := NewCluster(&o.EnvOpts)
+			for vb := uint16(0); vb < 4; vb++ {
+				c.Append(vb, marker(1, 1), mut(1, "a"))
+			}
+			e := NewDcpEnv(c, o)
+			if e.Err != nil {
+				vrt.Failf("newDcp: %v", e.Err)
+				return
+			}
+			var seen [][2]int
+			_ = e.bus().Subscribe(helpers.MembershipChangedBusEventName, func(m *membership.Model) {
+				seen = append(seen, [2]int{m.MemberNumber, m.TotalMembers})
+			})
+			vrt.GoNamed("first-membership", func() {
+				vrt.Sleep(1)
+				e.bus().Publish(helpers.MembershipChangedBusEventName, &membership.Model{MemberNumber: 1, TotalMembers: 1})
+			})
+			e.Start()
+			vrt.Quiesce()
+			c.WaitIdle()
+			a := newAPI(e.Cfg, e.D.GetClient(), dcpStream(e), []prometheus.Collector{}, e.bus(), dcp.VerifDiscovery(e.D))
+			c.Fault = func(r *gocbcore.SimRequest) gocbcore.SimAnswer {
+				if r.Kind == "closestream" {
+					return gocbcore.SimAnswer{Kind: "latedelay", Delay: 3 * time.Second}
+				}
+				return gocbcore.SimAnswer{}
+			}
+			put := func(name string, m, t int) {
+				vrt.GoNamed(name, func() {
+					body := fmt.Sprintf(`{"memberNumber":%d,"totalMembers":%d}`, m, t)
+					if _, _, err := api.VerifPutInfo(a, []byte(body)); err != nil {
+						vrt.Failf("PUT /membership/info failed: %v", err)
+					}
+				})
+			}
+			vrt.Window(true)
+			put("put-1/2", 1, 2)
+			vrt.Sleep(200 * time.Millisecond)
+			put("put-1/3", 1, 3)
+			vrt.Sleep(gap)
+			put("put-1/3-retry", 1, 3)
+			vrt.Sleep(40 * time.Second)
+			vrt.Quiesce()
+			vrt.Window(false)
+			c.WaitIdle()
+			desc := fmt.Sprintf("PUT 1/2 (slow rebalance), PUT 1/3 200 ms later, the same PUT 1/3 again after %v", gap)
+			for i := 1; i < len(seen); i++ {
+				if seen[i] == seen[i-1] {
+					vrt.Failf("%s: the numbering %d/%d was announced twice in a row (announcements %v)", desc, seen[i][0], seen[i][1], seen)
+				}
+			}
+			if len(seen) == 0 || seen[len(seen)-1] != [2]int{1, 3} {
+				vrt.Failf("%s: the last announcement is %v, want 1/3", desc, seen)
+			}
+			vrt.SetOutcome(fmt.Sprintf("%s|%v", desc, seen))
+			e.D.Close()
+		}}
+	}
 }
